@@ -12,8 +12,10 @@
     [env] of arbitrary functions, with the thermodynamic identities proved in C10
     (e = w - p, cs^2 = p'/e') as explicit hypotheses. *)
 From Coq Require Import Reals Lra Psatz QArith Qreals.
-From WG Require Import Lib.NumpySem Lib.HydroAdm Model.RangeLimit.
+From WG Require Import Lib.NumpySem Lib.HydroAdm.
 From GenC06 Require Import HydroAdmGen TemplAdmGen.
+From GenC06 Require Thermo.                (* the generated Thermodynamics class (as in C10) *)
+From WG Require Import Model.RangeLimit.   (* after the generated modules: [vJ c] is the cfg field *)
 Local Open Scope R_scope.
 
 (** the scale factor by which the code multiplies both matching equations never vanishes *)
@@ -394,6 +396,73 @@ Proof.
 Qed.
 End Tmpl.
 
+(** * C'. The same, on the GENERATED Thermodynamics class: the thermodynamic identities that
+    parts B and C assume are discharged against thermodynamics.py (any tables, any state) *)
+Section OnThermodynamics.
+Variable te : Thermo.env.
+Variable s : Thermo.st.
+Variables Tn vJ0 : R.
+
+Definition env_of : env :=
+  {| Tnucl := Tn; HydroAdmGen.vJ := vJ0;
+     pHighT := Thermo.pHighT te s; pLowT := Thermo.pLowT te s;
+     eHighT := Thermo.eHighT te s; eLowT := Thermo.eLowT te s;
+     wHighT := Thermo.wHighT te s; wLowT := Thermo.wLowT te s;
+     dpLowT := Thermo.dpLowT te s; deLowT := Thermo.deLowT te s;
+     csqLowT := Thermo.csqLowT te s; csqHighT := Thermo.csqHighT te s |}.
+
+Lemma thermo_eL t : eLowT env_of t = wLowT env_of t - pLowT env_of t.
+Proof. cbn. unfold Thermo.eLowT, Thermo.wLowT. ring. Qed.
+Lemma thermo_eH t : eHighT env_of t = wHighT env_of t - pHighT env_of t.
+Proof. cbn. unfold Thermo.eHighT, Thermo.wHighT. ring. Qed.
+Lemma thermo_csq t : Thermo.TMinLowT s <= t <= Thermo.TMaxLowT s ->
+  csqLowT env_of t = dpLowT env_of t / deLowT env_of t.
+Proof.
+  intros [H1 H2]. cbn. unfold Thermo.csqLowT.
+  destruct (Rlt_dec t (Thermo.TMinLowT s)); [lra|].
+  destruct (Rlt_dec (Thermo.TMaxLowT s) t); [lra|reflexivity].
+Qed.
+
+Lemma jouguet_iff_sonic_thermo tm :
+  Thermo.TMinLowT s <= tm <= Thermo.TMaxLowT s ->
+  deLowT env_of tm <> 0 -> eHighT env_of Tn + pHighT env_of Tn <> 0 ->
+  pHighT env_of Tn + eLowT env_of tm <> 0 -> eHighT env_of Tn - eLowT env_of tm <> 0 ->
+  eHighT env_of Tn + pLowT env_of tm <> 0 ->
+  (vpDerivNum env_of tm = 0 <->
+   fst (vpvmAndvpovm env_of Tn tm) / snd (vpvmAndvpovm env_of Tn tm) = csqLowT env_of tm).
+Proof. intros R0. apply (jouguet_iff_sonic env_of tm). apply thermo_csq, R0. Qed.
+
+Lemma jouguet_detonation_is_sonic_thermo tm :
+  Thermo.TMinLowT s <= tm <= Thermo.TMaxLowT s ->
+  deLowT env_of tm <> 0 -> eHighT env_of Tn + pHighT env_of Tn <> 0 ->
+  pHighT env_of Tn + eLowT env_of tm <> 0 -> eHighT env_of Tn - eLowT env_of tm <> 0 ->
+  eHighT env_of Tn + pLowT env_of tm <> 0 ->
+  0 <= vpsq env_of tm -> vJ_of_tm env_of tm <> 1 ->
+  vpDerivNum env_of tm = 0 ->
+  deton_residual env_of (vJ_of_tm env_of tm) tm = 0 /\
+  deton_ret env_of (vJ_of_tm env_of tm) tm =
+    (vJ_of_tm env_of tm, sqrt (csqLowT env_of tm), Tn, tm).
+Proof.
+  intros R0. apply (jouguet_detonation_is_sonic env_of tm).
+  - apply thermo_eH. - apply thermo_eL. - apply thermo_csq, R0.
+Qed.
+
+Lemma deton_weak_branch_thermo vw Tm :
+  Thermo.TMinLowT s <= Tm <= Thermo.TMaxLowT s ->
+  derivable_pt_lim (pLowT env_of) Tm (dpLowT env_of Tm) ->
+  derivable_pt_lim (eLowT env_of) Tm (deLowT env_of Tm) ->
+  Tn < Tm -> (forall t, Tn <= t < Tm -> 0 <= deton_residual env_of vw t) ->
+  deton_residual env_of vw Tm = 0 ->
+  0 < deLowT env_of Tm -> 0 < eHighT env_of Tn + pHighT env_of Tn ->
+  0 < pHighT env_of Tn + eLowT env_of Tm ->
+  eHighT env_of Tn - eLowT env_of Tm <> 0 -> eHighT env_of Tn + pLowT env_of Tm <> 0 ->
+  csqLowT env_of Tm <= fst (vpvmAndvpovm env_of Tn Tm) / snd (vpvmAndvpovm env_of Tn Tm).
+Proof.
+  intros R0 D1 D2. apply (deton_weak_branch env_of vw Tm (thermo_eH Tn) thermo_eL D1 D2).
+  apply thermo_csq, R0.
+Qed.
+End OnThermodynamics.
+
 (* ------------------------------------------------------------------------------------ *)
 (** * Obligations *)
 
@@ -541,6 +610,40 @@ Theorem detonation_at_vJ_is_Chapman_Jouguet : forall e tm,
 Proof. intros. apply jouguet_detonation_is_sonic; assumption. Qed.
 Print Assumptions detonation_at_vJ_is_Chapman_Jouguet.
 
+(** on the generated Thermodynamics class the identity hypotheses are theorems *)
+Theorem jouguet_point_is_sonic_on_Thermodynamics : forall te s Tn vJ0 tm,
+  let e := env_of te s Tn vJ0 in
+  Thermo.TMinLowT s <= tm <= Thermo.TMaxLowT s ->
+  deLowT e tm <> 0 -> eHighT e Tn + pHighT e Tn <> 0 -> pHighT e Tn + eLowT e tm <> 0 ->
+  eHighT e Tn - eLowT e tm <> 0 -> eHighT e Tn + pLowT e tm <> 0 ->
+  (vpDerivNum e tm = 0 <->
+   fst (vpvmAndvpovm e Tn tm) / snd (vpvmAndvpovm e Tn tm) = csqLowT e tm).
+Proof. intros. apply jouguet_iff_sonic_thermo; assumption. Qed.
+Print Assumptions jouguet_point_is_sonic_on_Thermodynamics.
+
+Theorem detonation_at_vJ_is_Chapman_Jouguet_on_Thermodynamics : forall te s Tn vJ0 tm,
+  let e := env_of te s Tn vJ0 in
+  Thermo.TMinLowT s <= tm <= Thermo.TMaxLowT s ->
+  deLowT e tm <> 0 -> eHighT e Tn + pHighT e Tn <> 0 -> pHighT e Tn + eLowT e tm <> 0 ->
+  eHighT e Tn - eLowT e tm <> 0 -> eHighT e Tn + pLowT e tm <> 0 ->
+  0 <= vpsq e tm -> vJ_of_tm e tm <> 1 -> vpDerivNum e tm = 0 ->
+  deton_residual e (vJ_of_tm e tm) tm = 0 /\
+  deton_ret e (vJ_of_tm e tm) tm = (vJ_of_tm e tm, sqrt (csqLowT e tm), Tn, tm).
+Proof. intros. apply jouguet_detonation_is_sonic_thermo; assumption. Qed.
+Print Assumptions detonation_at_vJ_is_Chapman_Jouguet_on_Thermodynamics.
+
+Theorem first_root_detonation_is_weak_on_Thermodynamics : forall te s Tn vJ0 vw Tm,
+  let e := env_of te s Tn vJ0 in
+  Thermo.TMinLowT s <= Tm <= Thermo.TMaxLowT s ->
+  derivable_pt_lim (pLowT e) Tm (dpLowT e Tm) -> derivable_pt_lim (eLowT e) Tm (deLowT e Tm) ->
+  Tn < Tm -> (forall t, Tn <= t < Tm -> 0 <= deton_residual e vw t) ->
+  deton_residual e vw Tm = 0 ->
+  0 < deLowT e Tm -> 0 < eHighT e Tn + pHighT e Tn -> 0 < pHighT e Tn + eLowT e Tm ->
+  eHighT e Tn - eLowT e Tm <> 0 -> eHighT e Tn + pLowT e Tm <> 0 ->
+  csqLowT e Tm <= fst (vpvmAndvpovm e Tn Tm) / snd (vpvmAndvpovm e Tn Tm).
+Proof. intros. eapply deton_weak_branch_thermo with (vw := vw); eassumption. Qed.
+Print Assumptions first_root_detonation_is_weak_on_Thermodynamics.
+
 Theorem template_vJ_in_range : forall e,
   t_init_cb e -> 0 < t_cb2 e < 1 -> 0 <= t_alN e ->
   t_cb e <= t_findJouguetVelocity e (t_alN e) < 1.
@@ -571,6 +674,28 @@ Theorem getVp_solves_alpha : forall e vm al br,
   t_alpha_plus e (t_getVp e vm al br) vm = al.
 Proof. intros. apply template_getVp_solves_alpha; assumption. Qed.
 Print Assumptions getVp_solves_alpha.
+
+(** which family findMatching computes, and the template's v- rule *)
+Theorem findMatching_dispatch : forall e vw,
+  (is_detonation e vw = true <-> HydroAdmGen.vJ e < vw) /\
+  (is_detonation e vw = false <-> vw <= HydroAdmGen.vJ e).
+Proof.
+  intros e vw. unfold is_detonation. destruct (Rlt_dec (HydroAdmGen.vJ e) vw); split; split; intros;
+    try reflexivity; try discriminate; try assumption; lra.
+Qed.
+Print Assumptions findMatching_dispatch.
+
+Theorem template_dispatch_and_vm_rule : forall e vw,
+  (t_is_detonation e vw = true <-> t_vJ e < vw) /\
+  (vw <= t_cb e -> t_vm_of_vw e vw = vw) /\ (t_cb e <= vw -> t_vm_of_vw e vw = t_cb e).
+Proof.
+  intros e vw. unfold t_is_detonation, t_vm_of_vw. repeat split.
+  - destruct (Rlt_dec (t_vJ e) vw); [auto|discriminate].
+  - destruct (Rlt_dec (t_vJ e) vw); [auto|contradiction].
+  - intro H. apply Rmin_right, H.
+  - intro H. apply Rmin_left, H.
+Qed.
+Print Assumptions template_dispatch_and_vm_rule.
 
 (** ** decision model (WG.Model.RangeLimit), real instance *)
 Theorem fastest_le_vJ : forall c Tp Tm brentq tol,
@@ -625,6 +750,19 @@ Theorem fastest_flags_sound : forall c Tp Tm brentq tol,
 Proof. intros. eapply RangeLimit.fastest_flags_sound; eassumption. Qed.
 Print Assumptions fastest_flags_sound.
 
+Theorem fastest_blind_when_window_starts_out_of_range : forall c Tp Tm brentq tol,
+  brent_spec brentq tol (fun v => Tm v - TMaxLowT c) (vMin c + vBracketLow c) (vJ c - vBracketLow c) ->
+  brent_spec brentq tol (fun v => Tp v - TMaxHighT c) (vMin c + vBracketLow c) (vJ c - vBracketLow c) ->
+  vMin c + vBracketLow c <= vJ c - vBracketLow c ->
+  incr_on Tm (vMin c + vBracketLow c) (vJ c - vBracketLow c) ->
+  incr_on Tp (vMin c + vBracketLow c) (vJ c - vBracketLow c) ->
+  Tm (vJ c - vBracketLow c) < TMaxLowT c -> TMaxHighT c < Tp (vMin c + vBracketLow c) ->
+  forall flags,
+  fastestDeflag opsR c Tp Tm brentq flags = (vJ c, (false, false)) /\
+  forall vw, vMin c + vBracketLow c <= vw <= vJ c - vBracketLow c -> TMaxHighT c < Tp vw.
+Proof. intros. eapply RangeLimit.fastest_blind_when_window_starts_out_of_range; eassumption. Qed.
+Print Assumptions fastest_blind_when_window_starts_out_of_range.
+
 Theorem fastest_value_independent_of_flags : forall c Tp Tm brentq f1 f2,
   fst (fastestDeflag opsR c Tp Tm brentq f1) = fst (fastestDeflag opsR c Tp Tm brentq f2).
 Proof. intros. apply RangeLimit.fastest_value_independent_of_flags. Qed.
@@ -665,7 +803,7 @@ Print Assumptions slowest_is_range_hit.
 (** ** non-vacuity *)
 (** template hypotheses: cb2 = 1/4, cb = 1/2, alpha = 1/10 *)
 Example template_hypotheses_satisfiable :
-  let e := mk_t_env (1 / 4) (1 / 3) (1 / 10) 1 (1 / 2) (sqrt (1 / 3)) 1 1 1 5 4 (fun _ _ _ => 1) in
+  let e := mk_t_env (1 / 4) (1 / 3) (1 / 10) 1 (1 / 2) (sqrt (1 / 3)) 1 1 1 5 4 (3 / 4) (fun _ _ _ => 1) in
   t_init_cb e /\ 0 < t_cb2 e < 1 /\ 0 <= t_alN e.
 Proof.
   cbn. unfold t_init_cb. cbn. repeat split; try lra.
